@@ -23,6 +23,10 @@ var VerifBodyMultiStatus *MultiStatus
 
 func verifStubXMLDecode(d *xml.Decoder, v interface{}) error {
 	if VerifBodyDecodeFails {
+		if VerifBodyEmpty {
+			// no document at all: the real decoder reports io.EOF
+			return io.EOF
+		}
 		return io.ErrUnexpectedEOF
 	}
 	switch dst := v.(type) {
@@ -85,6 +89,10 @@ func (c *VerifResponder) Do(req *http.Request) (*http.Response, error) {
 
 // VerifPrepareBody: how the body will be understood. Natively the typed
 // value is marshalled to real XML.
+// VerifBodyEmpty: the undecodable body is one without any document (only a
+// prolog): the decoder fails with io.EOF rather than with a syntax error.
+var VerifBodyEmpty bool
+
 func VerifPrepareBody(r *VerifResponder, decodeFails bool, errElt *Error, ms *MultiStatus) {
 	VerifBodyDecodeFails, VerifBodyError, VerifBodyMultiStatus = decodeFails, errElt, ms
 	if vrt.Symbolic() {
@@ -92,6 +100,8 @@ func VerifPrepareBody(r *VerifResponder, decodeFails bool, errElt *Error, ms *Mu
 		return
 	}
 	switch {
+	case decodeFails && VerifBodyEmpty:
+		r.Body = "<?xml version=\"1.0\" encoding=\"utf-8\"?>\n"
 	case decodeFails:
 		r.Body = "<broken"
 	case errElt != nil:
@@ -243,8 +253,11 @@ func VerifH_C14_MultiStatus() {
 	r.Header.Set("Content-Type", "text/xml")
 	var sent *MultiStatus
 	decodeFails := vrt.Choose("body-decodes", 2) == 0
+	VerifBodyEmpty = false
 	if !decodeFails {
 		sent = symMultiStatus(vrt.Param("maxresp", 2))
+	} else {
+		VerifBodyEmpty = vrt.Choose("no-document-at-all", 2) == 1
 	}
 	VerifPrepareBody(r, decodeFails, nil, sent)
 	c := VerifNewClient(r, "/dav/")
